@@ -170,6 +170,40 @@ pub fn wild_layout(n: usize, nx: usize, rng: &mut Rng, sparse: bool, max_files: 
                 });
             }
         }
+        // what else a node leaves in and around its blocks directory: pid file of a running daemon (pid 1 is
+        // always alive), lock, log and state files, and a stale copy of a whole blocks directory (rsync run
+        // twice) — none of it is named by an index record
+        if rng.coin() {
+            for (name, body) in [
+                ("bitcoind.pid", &b"1\n"[..]),
+                ("litecoind.pid", &b"1\n"[..]),
+                (".lock", &b""[..]),
+                ("debug.log", &b"2024-01-01T00:00:00Z UpdateTip: new best=00 height=1\n"[..]),
+                ("peers.dat", &b"\xf9\xbe\xb4\xd9"[..]),
+                ("settings.json", &b"{}"[..]),
+            ] {
+                if rng.chance(1, 3) && !extra_files.iter().any(|e: &ExtraFile| e.name == name) {
+                    extra_files.push(ExtraFile {
+                        name: name.into(),
+                        bytes: Bytes(body.to_vec()),
+                        is_dir: false,
+                        symlink_to: None,
+                    });
+                }
+            }
+            if rng.chance(1, 3) {
+                for name in ["blocks/index", "blocks/blocks/index"] {
+                    if rng.coin() {
+                        extra_files.push(ExtraFile {
+                            name: name.into(),
+                            bytes: Bytes(vec![]),
+                            is_dir: true,
+                            symlink_to: None,
+                        });
+                    }
+                }
+            }
+        }
         // a blk file no record names, and a directory with a blk name
         for is_dir in [false, true] {
             let mut k = 7000 + rng.below(1000);
@@ -192,6 +226,8 @@ pub fn wild_layout(n: usize, nx: usize, rng: &mut Rng, sparse: bool, max_files: 
         xor_key: None,
         magic_mode: if rng.chance(1, 3) { rng.range(1, 3) as u8 } else { 0 },
         xor_symlink: false,
+        link_chain: rng.chance(1, 3),
+        side_xor: if rng.chance(1, 4) { Some(Bytes(rng.bytes(8))) } else { None },
         extra_files,
     }
 }
@@ -385,6 +421,8 @@ impl Prop for C11 {
                 xor_key: None,
                 magic_mode: 0,
                 xor_symlink: false,
+                link_chain: false,
+                side_xor: None,
                 extra_files: vec![],
             };
             let mut obf = plain.clone();
